@@ -76,22 +76,30 @@ HANDLERS = {"dfl": signal.SIG_DFL, "ign": signal.SIG_IGN, "py": py_handler,
             "default_int": signal.default_int_handler}
 
 
+SPECIAL = {"<ellipsis>": Ellipsis, "<notimplemented>": NotImplemented}
+
+
+def val(v):
+    """Values the function returns / its Deferred fires with; JSON cannot hold ... or NotImplemented."""
+    return SPECIAL.get(v, v) if isinstance(v, str) else v
+
+
 def expected(run):
     """(kind, payload) the statement prescribes, from the event order."""
     f, T, tau = run["f"], run["timeout"], run.get("stop_at")
     k = f["kind"]
     if k in ("ret", "fired"):
-        first = ("value", f.get("v"))
+        first = ("value", val(f.get("v")))
         tf = 0.0
     elif k in ("raise", "failed"):
         first = ("raise", f["exc"])
         tf = 0.0
     elif k == "fire_at":
-        first, tf = ("value", f.get("v")), f["t"]
+        first, tf = ("value", val(f.get("v"))), f["t"]
     elif k == "fail_at":
         first, tf = ("raise", f["exc"]), f["t"]
     elif k == "chain":
-        first, tf = ("value", f.get("v")), f["t"] + f["t2"]
+        first, tf = ("value", val(f.get("v"))), f["t"] + f["t2"]
     else:
         first, tf = None, float("inf")
     events = [(tf, 2, first)]
@@ -170,23 +178,23 @@ def x_history(ctx, case):
                             reentry.setdefault("errors", []).append(type(e).__name__)
                 k = f["kind"]
                 if k == "ret":
-                    return f.get("v")
+                    return val(f.get("v"))
                 if k == "raise":
                     raise EXC[f["exc"]]("boom")
                 if k == "fired":
-                    return defer.succeed(f.get("v"))
+                    return defer.succeed(val(f.get("v")))
                 if k == "failed":
                     return defer.fail(EXC[f["exc"]]("boom"))
                 d = defer.Deferred()
                 if k == "fire_at":
-                    reactor.callLater(f["t"], d.callback, f.get("v"))
+                    reactor.callLater(f["t"], d.callback, val(f.get("v")))
                 elif k == "fail_at":
                     reactor.callLater(f["t"], d.errback, EXC[f["exc"]]("boom"))
                 elif k == "chain":
                     inner = defer.Deferred()
                     reactor.callLater(f["t"], d.callback, None)
                     d.addCallback(lambda _: inner)
-                    reactor.callLater(f["t"] + f["t2"], inner.callback, f.get("v"))
+                    reactor.callLater(f["t"] + f["t2"], inner.callback, val(f.get("v")))
                 return d
 
             got = None
@@ -348,11 +356,17 @@ def grid_runs():
         kinds.append({"kind": "fire_at", "t": t, "v": "x"})
         kinds.append({"kind": "fail_at", "t": t, "exc": "ValueError"})
     kinds.append({"kind": "chain", "t": 0.5, "t2": 0.25, "v": [1]})
+    # values a sentinel-based implementation could mistake for "no result yet"
+    for v in (None, 0, False, "", "<ellipsis>", "<notimplemented>"):
+        kinds.append({"kind": "ret", "v": v})
+        kinds.append({"kind": "fire_at", "t": 0.5, "v": v})
     kinds.append({"kind": "fire_at", "t": 1.0, "v": "tie"})     # exactly at the timeout 1.0
     kinds.append({"kind": "fail_at", "t": 2.0, "exc": "KeyError"})  # exactly at the timeout 2.0
     for f in kinds:
-        for T in (1.0, 2.0):
+        for T in (1.0, 2.0, 0.0):
             for tau in (None, 0.25, 0.75, 1.25, 1.75, 2.25, 3.0, "startup"):
+                if T == 0.0 and tau not in (None, 0.25):
+                    continue        # a timeout of 0: whatever is not finished at once times out
                 if tau is not None and f["kind"] in ("fire_at", "fail_at") and f["t"] in (1.0, 2.0) and tau in (T,):
                     continue
                 yield {"f": f, "timeout": T, "stop_at": tau}
@@ -374,7 +388,7 @@ def run(ctx):
             run1 = dict(base, **v)
             ctx.execute("history", {"runs": [run1], "handlers": ["default_int", "py", "ign", "dfl"][n % 4]},
                         sample=(n % 211 == 0))
-    ctx.note_space("function kind (17) x timeout (2) x stop instant (8, incl. during reactor start-up) x 6 variants (junk, selectables, handler "
+    ctx.note_space("function kind (29) x timeout (3, incl. 0) x stop instant (8, incl. during reactor start-up) x 6 variants (junk, selectables, handler "
                    "re-installation, re-entry, pre-patched reactor.stop), fresh Spinner", n, not ctx.quick)
     # reuse histories: run A, (clear junk or not), run B
     firsts = [r for r in grid_runs()][::5]
